@@ -132,10 +132,14 @@ class ColumnBackend(ArraySchemaBackend):
                         check_obj[column_name] = validated_column
             else:
                 if getattr(schema, "drop_invalid_rows", False):
-                    # replace the check_obj with the validated
-                    check_obj = validate_column(
+                    # replace the check_obj with the validated one; when
+                    # that validation raised, its errors were collected and
+                    # there is nothing to replace the check_obj with
+                    validated_check_obj = validate_column(
                         check_obj, column_name, return_check_obj=True
                     )
+                    if validated_check_obj is not None:
+                        check_obj = validated_check_obj
 
                 validated_column = validate_column(
                     check_obj,
